@@ -37,8 +37,46 @@ LINECAP_EXEMPT = {
 }
 
 
+_CTX: list = []          # the Ctx of the running rule (for resolving helper calls in _is_counter)
+
+
+def _count_amount(f: Func, v: ast.AST, seen: frozenset) -> bool:
+    """An amount a counter may be increased by: a literal, `<result>.lines`, another counter, or the counter component of a
+    helper's tuple result (`pos, n = _skip(...)` where every return of _skip is `(.., <counter>)`)."""
+    if isinstance(v, ast.Constant) and isinstance(v.value, int):
+        return True
+    if isinstance(v, ast.Attribute) and v.attr == "lines":
+        return True
+    if isinstance(v, ast.Name):
+        defs = [n for n in own_nodes(f.node) if isinstance(n, (ast.Assign, ast.AugAssign)) and any(
+            isinstance(x, ast.Name) and x.id == v.id and isinstance(x.ctx, ast.Store) for t in (n.targets if isinstance(n, ast.Assign) else [n.target]) for x in ast.walk(t))]
+        if not defs:
+            return False
+        ok = True
+        for d in defs:
+            if isinstance(d, ast.Assign) and len(d.targets) == 1 and isinstance(d.targets[0], ast.Tuple) and isinstance(d.value, ast.Call) and _CTX:
+                j = next((i for i, e in enumerate(d.targets[0].elts) if isinstance(e, ast.Name) and e.id == v.id), None)
+                cs = _CTX[0].cg.site_of.get(d.value)
+                if j is None or cs is None or len(cs.callees) != 1:
+                    ok = False
+                    break
+                h = cs.callees[0]
+                rets = [r_ for r_ in own_nodes(h.node) if isinstance(r_, ast.Return)]
+                if not rets or not all(isinstance(r_.value, ast.Tuple) and j < len(r_.value.elts) and isinstance(r_.value.elts[j], ast.Name)
+                                       and _is_counter(h, r_.value.elts[j].id) for r_ in rets):
+                    ok = False
+                    break
+            else:
+                ok = False
+                break
+        if ok:
+            return True
+        return _is_counter(f, v.id, seen)
+    return False
+
+
 def _is_counter(f: Func, name: str, seen: frozenset = frozenset()) -> bool:
-    """A local that only counts: every definition is a literal, `+= 1`, `+= <result>.lines`, or a copy of another counter."""
+    """A local that only counts: every definition is a literal, `+= <amount>` (see _count_amount), or a copy of another counter."""
     if name in seen:
         return True
     seen = seen | {name}
@@ -56,15 +94,13 @@ def _is_counter(f: Func, name: str, seen: frozenset = frozenset()) -> bool:
                 sides = [v.left, v.right]
                 me = [x for x in sides if isinstance(x, ast.Name) and x.id == name]
                 inc = [x for x in sides if not (isinstance(x, ast.Name) and x.id == name)]
-                if len(me) == 1 and len(inc) == 1 and (isinstance(inc[0], ast.Constant) and isinstance(inc[0].value, int)
-                                                       or isinstance(inc[0], ast.Attribute) and inc[0].attr == "lines"):
+                if len(me) == 1 and len(inc) == 1 and _count_amount(f, inc[0], seen):
                     continue
             return False
         if isinstance(n, ast.AugAssign) and isinstance(n.target, ast.Name) and n.target.id == name:
             found = True
             v = n.value
-            if isinstance(n.op, ast.Add) and (isinstance(v, ast.Constant) and isinstance(v.value, int)
-                                              or isinstance(v, ast.Attribute) and v.attr == "lines"):
+            if isinstance(n.op, ast.Add) and _count_amount(f, v, seen):
                 continue
             return False
         if isinstance(n, ast.Name) and n.id == name and isinstance(n.ctx, ast.Store) and not isinstance(
@@ -303,6 +339,7 @@ def rule_linecap(c: Ctx) -> RuleResult:
                               "and of the block dispatcher (co-inductive contract, validated at every dispatch / call site); lineMax is "
                               "only shrunk within the region or restored")
     m = _Model(c)
+    _CTX[:] = [c]
     n_sites = 0
     site_facts: dict[Func, list[tuple[Func, ast.Call, Facts]]] = {}      # derived member -> facts at each of its call sites
 
